@@ -46,6 +46,12 @@ def run(v):
         shutil.rmtree(tmp,ignore_errors=True)
 vs=variants()
 res={}
+# `matrix.py only <prefix>…`: re-run the variants whose name starts with one of the prefixes and merge into the bank
+if len(sys.argv) > 2 and sys.argv[1] == 'only':
+    res=json.load(open(os.path.join(SEEDED,'BANK.json')))
+    vs=[v for v in vs if any(v[0].startswith(p) for p in sys.argv[2:])]
+    present={v[0] for v in variants()}
+    res={k:v for k,v in res.items() if k in present}
 with concurrent.futures.ThreadPoolExecutor(max_workers=6) as ex:
     for name,r in ex.map(run,vs):
         res[name]=r
